@@ -1173,7 +1173,16 @@ func EvalExpression(exprSrc string, rootValue interface{}, stdout io.Writer) (*C
 	if err != nil {
 		return nil, err
 	}
-	return cell, nil
+
+	// hand out a cell of its own holding the selected value, as assigning the
+	// expression to $ would. the cell evaluated can be a member that doesn't
+	// exist (yet) and remembers where it would be created, or a method bound to
+	// its receiver, and assignments to the root must not end up there
+	root := NewCell(Value{Tag: ValueUnknown})
+	if _, err := copyValue(cell, root); err != nil {
+		return nil, ev.error(expr.Token(), err.Error())
+	}
+	return root, nil
 }
 
 type InputFile struct {
